@@ -556,3 +556,52 @@ def worklist_walk(fn):
         skips = [set(guard_texts(x, stop=lp)) for x in walk_body(lp.body) if isinstance(x, (ast.Continue, ast.Break, ast.Return))]
         return {"work": work, "start": start, "cur": cur, "loop": lp, "pushes": pushes, "skips": skips}
     return None
+
+
+MUTATORS = ("add", "append", "extend", "update", "insert", "pop", "remove", "discard", "clear", "setdefault", "popitem", "sort", "reverse", "appendleft", "extendleft")
+MUTABLE_CTORS = ("set", "list", "dict", "OrderedDict", "defaultdict", "collections.defaultdict", "collections.OrderedDict", "deque", "collections.deque")
+
+
+def class_level_mutables(cls):
+    """Names bound in the class body to a mutable display / constructor call."""
+    from .model import call_name
+    out = {}
+    for st in cls.body:
+        if isinstance(st, ast.Assign) and len(st.targets) == 1 and isinstance(st.targets[0], ast.Name):
+            v = st.value
+            if isinstance(v, (ast.List, ast.Dict, ast.Set, ast.ListComp, ast.DictComp, ast.SetComp)) or (isinstance(v, ast.Call) and call_name(v) in MUTABLE_CTORS):
+                out[st.targets[0].id] = st
+    return out
+
+
+def shared_default_mutations(cls, fn, names=None):
+    """Statements of ``fn`` (a method of ``cls``) that modify, in place, a mutable object bound in the class body - reached as
+    self.__class__.X / type(self).X / cls.X / <Class>.X, or through a local that is a plain alias of one of those (x = self.__class__.X; x += ...)."""
+    shared = class_level_mutables(cls)
+    if names is not None:
+        shared = dict((k, v) for k, v in shared.items() if k in names)
+
+    def is_shared(e, aliases):
+        if isinstance(e, ast.Name):
+            return e.id in aliases
+        if isinstance(e, ast.Attribute) and e.attr in shared:
+            b = U(e.value)
+            return b in ("self.__class__", "type(self)", "cls", cls.name)
+        return False
+    aliases = set()
+    for _ in range(2):
+        for a in walk_body(fn.body):
+            if isinstance(a, ast.Assign) and len(a.targets) == 1 and isinstance(a.targets[0], ast.Name) and is_shared(a.value, aliases):
+                # the local must not be rebound to something private elsewhere
+                others = [d for d in assigns_to(fn, a.targets[0].id) if d is not a and not isinstance(d, ast.AugAssign)]
+                if not others:
+                    aliases.add(a.targets[0].id)
+    bad = []
+    for x in walk_body(fn.body):
+        if isinstance(x, ast.AugAssign) and is_shared(x.target, aliases):
+            bad.append(x)
+        if isinstance(x, ast.Call) and isinstance(x.func, ast.Attribute) and x.func.attr in MUTATORS and is_shared(x.func.value, aliases):
+            bad.append(x)
+        if isinstance(x, ast.Subscript) and isinstance(x.ctx, (ast.Store, ast.Del)) and is_shared(x.value, aliases):
+            bad.append(x)
+    return bad
